@@ -337,6 +337,10 @@ def _loop_scenarios() -> list[Scenario]:
                 if v.kind in ('released-early', 'unblocked-while-required', 'blocked-needlessly', 'blocked-while-deleting', 'foreign-finalizers-changed'):
                     out.append(self.viol(env, 'carried-transformation-not-reevaluated',
                                          f"after {len(conflicts)} version conflict(s): {v.message}", clause='re-evaluated', what=v.kind))
+                if v.kind in ('not-released', 'not-blocked', 'not-unblocked'):
+                    # "... so its effect is neither lost nor duplicated": the finalizer edit that met the conflict never happened afterwards
+                    out.append(self.viol(env, 'carried-transformation-lost',
+                                         f"after {len(conflicts)} version conflict(s): {v.message}", clause='neither-lost', what=v.kind))
             return out
     globals()['CarryOverScenario'] = CarryOverScenario
     st = {'persistence__consistency_timeout': 5.0}
@@ -349,6 +353,14 @@ def _loop_scenarios() -> list[Scenario]:
         out.append(CarryOverScenario(handlers=handlers, settings=st, horizon=50.0, variant='toggle-live',
                                      user=[(1.0, 'create', 'a'), (2.0, 'label', 'a', 'on', 'yes'), (5.0, 'label', 'a', 'on', 'no'),
                                            (8.0, 'label', 'a', 'on', 'yes'), (12.0, 'status', 'a', 1)]))
+    # the plain life of an object with a mandatory delete handler; the explorer lands foreign writes before the finalizer JSON-patches
+    for d1 in (['ok'], ['temp', 'temp', 'ok']):
+        handlers = [dict(id='c1', on='create', script=['ok']), dict(id='d1', on='delete', script=d1)]
+        out.append(CarryOverScenario(handlers=handlers, settings=st, horizon=50.0, variant='plain',
+                                     user=[(1.0, 'create', 'a'), (10.0, 'delete', 'a'), (11.0, 'status', 'a', 1)]))
+        out.append(CarryOverScenario(handlers=handlers, settings=st, horizon=50.0, variant='foreign',
+                                     user=[(1.0, 'create', 'a'), (3.0, 'addfin0', 'a', 'other/fin'), (10.0, 'delete', 'a'), (11.0, 'status', 'a', 1),
+                                           (14.0, 'delfin', 'a', 'other/fin')]))
     # a user transformation that meets a version conflict, is delivered in the next cycle, and whose effect somebody undoes later
     for lc in ('asap',):
         handlers = [dict(id='c1', on='create', script=['ok+finuser/fin']), dict(id='u1', on='update', script=['ok'])]
